@@ -1,5 +1,6 @@
 import VtProofs.Converter
 import VtProofs.Source
+import VtProofs.ConvOptions
 /-!
 # C06 — conversion selects and relocates tiles exactly as the options say
 
@@ -531,6 +532,110 @@ theorem options_zoom (mn mx : Option Nat) (h : mn.isSome ∨ mx.isSome) (c : Coo
         List.mapIdx_mapIdx, hget]
       by_cases ha : z < a <;> by_cases hb : z > b <;>
         simp [ha, hb, BBox.setEmpty, BBox.contains3, BBox.contains2] <;> omega
+
+/-- **`--bbox` (+ `--bbox-border`, + zoom limits)**: with a valid box (`check` passed) whose per-level
+    tile boxes `g z = TileBBox::from_geo(z, bbox)` are well-formed (C15), the option handling never
+    panics (border ≤ 2^32 − 2^31 − 1; the unchecked `x_max + border` of `add_border` overflows `u32`
+    beyond that) and selects exactly: level inside the zoom limits ∧ the geo box of the level is not
+    empty ∧ the coordinate lies within `border` tiles (Chebyshev distance, clamped to the level) of it. -/
+theorem options_geo (mn mx : Option Nat) (fromGeo : Nat → Outcome BBox) (g : Nat → BBox)
+    (hg : ∀ z, z < 32 → fromGeo z = .ok (g z) ∧ (g z).level = z ∧ (g z).WF)
+    (border : Option Nat) (hbd : ∀ b, border = some b → b + 2 ^ 31 ≤ U32) :
+    ∃ q, getBBoxPyramidG mn mx (some (true, fromGeo)) border = .ok (some q) ∧
+      ∀ c, Coord.Valid c →
+        (Pyramid.has q c = true ↔
+          (VtProofs.ConvOptions.zoomOK mn mx c.2.2 ∧ (g c.2.2).isEmpty = false ∧
+            (g c.2.2).xmin ≤ c.1 + border.getD 0 ∧ c.1 ≤ (g c.2.2).xmax + border.getD 0 ∧
+            (g c.2.2).ymin ≤ c.2.1 + border.getD 0 ∧ c.2.1 ≤ (g c.2.2).ymax + border.getD 0)) := by
+  open VtProofs.ConvOptions in
+  -- the zoom-limited full pyramid
+  have hp2 :
+      getBBoxPyramidG mn mx (some (true, fromGeo)) border
+        = (intersectGeoWith fromGeo (zoomPyrOf mn mx)).bind fun p3 =>
+            match border with
+            | some b => (Pyramid.addBorder p3 b b b b).map some
+            | none => .ok (some p3) := by
+    unfold getBBoxPyramidG zoomPyrOf
+    cases mn <;> cases mx <;> rfl
+  rw [hp2, zoomPyrOf_eq]
+  -- intersect with the geo boxes
+  have h3 : intersectGeoWith fromGeo ((List.range 32).map (zoomBox mn mx))
+      = .ok ((List.range 32).map fun z => isectBox (zoomBox mn mx z) (g z)) := by
+    unfold intersectGeoWith
+    rw [mapM_ok _ (fun b => isectBox b (g b.level))]
+    · simp [List.map_map, Function.comp_def, zoomBox_level]
+    · intro b hb
+      obtain ⟨z, hz, rfl⟩ := List.mem_map.1 hb
+      have hz' : z < 32 := by simpa using hz
+      obtain ⟨hf, hl, _⟩ := hg z hz'
+      rw [zoomBox_level, hf]
+      simp only
+      rw [isect_ok _ _ (by rw [zoomBox_level, hl])]
+      rfl
+  rw [h3]
+  simp only [Outcome.bind]
+  -- the border
+  have h4 : (match border with
+      | some b => (Pyramid.addBorder ((List.range 32).map fun z => isectBox (zoomBox mn mx z) (g z)) b b b b).map some
+      | none => Outcome.ok (some ((List.range 32).map fun z => isectBox (zoomBox mn mx z) (g z))))
+      = .ok (some ((List.range 32).map (reqBox mn mx g border))) := by
+    cases hb : border with
+    | none => simp [reqBox]
+    | some bd =>
+      simp only
+      unfold Pyramid.addBorder
+      rw [mapM_ok _ (fun b => borderBox b bd)]
+      · simp [Outcome.map, Outcome.bind, List.map_map, Function.comp_def, reqBox]
+      · intro b hbm
+        obtain ⟨z, hz, rfl⟩ := List.mem_map.1 hbm
+        have hz' : z < 32 := by simpa using hz
+        exact addBorder_ok _ (isect_wf _ _ (zoomBox_wf mn mx z hz')) bd (hbd bd hb)
+  rw [h4]
+  refine ⟨_, rfl, ?_⟩
+  intro c hv
+  obtain ⟨x, y, z⟩ := c
+  have hz : z < 32 := by have := hv.1; simp at this; omega
+  have hx : x < 2 ^ z := hv.2.1
+  have hy : y < 2 ^ z := hv.2.2
+  unfold Pyramid.has Pyramid.containsCoord
+  simp only [List.getElem?_map, List.getElem?_range hz, Option.map_some, BBox.contains3, reqBox_level,
+    beq_self_eq_true, Bool.true_and]
+  exact reqBox_contains mn mx g border z hz (hg z hz).2 x y hx hy
+
+/-! ## `versatiles serve --flip-y --swap-xy` = `versatiles convert --flip-y --swap-xy` -/
+
+/-- the source a server registers for a container (serve.rs:108-114): wrapped in a converting
+    reader with default parameters iff a transform flag is given -/
+def serveSrc {β : Type} (f s : Bool) (recode : β → Option β) (src : Src β) : Outcome (Src β) :=
+  if f || s then convert src ⟨none, f, s, recode⟩ else .ok src
+
+/-- without a flag the server serves the container itself -/
+theorem serve_plain {β : Type} (recode : β → Option β) (src : Src β) :
+    serveSrc false false recode src = .ok src := rfl
+
+/-- **the server exposes the coordinate mapping of the conversion**: for a source with a
+    well-formed coverage that contains its tiles (C03) and exact streams (C02), a tile endpoint
+    lookup at a coordinate `c` of the pyramid answers `v'` exactly when the container produced by
+    `versatiles convert` with the same flags (no selection) holds `(c, v')`. -/
+theorem serve_matches_convert {β : Type} (f s : Bool) (src : Src β) (recode : β → Option β) (rc : β → β)
+    (hr : ∀ v, recode v = some (rc v)) (hw : src.cover.WF) (hcov : Covers src)
+    (hs : ∀ b0 : BBox, b0.WF → ∃ l, StreamExact src b0 l) (hfs : (f || s) = true) :
+    ∃ served cov out, serveSrc f s recode src = .ok served ∧
+      walk src ⟨none, f, s, recode⟩ = .ok (cov, out) ∧
+      ∀ c v', Coord.Valid c → (served.lookup c = .ok (some v') ↔ (c, v') ∈ out) := by
+  obtain ⟨cov, out, hwalk, hmem, _⟩ := selection src ⟨none, f, s, recode⟩ rc hr hw (by intro q h; cases h) hcov hs
+  obtain ⟨cov', hc, _, _⟩ := cover_eq src.cover (⟨none, f, s, recode⟩ : Params β) hw (by intro q h; cases h)
+  refine ⟨⟨lookup src ⟨none, f, s, recode⟩, stream src ⟨none, f, s, recode⟩, cov'⟩, cov, out, ?_, hwalk, ?_⟩
+  · simp [serveSrc, hfs, convert, hc, Outcome.bind]
+  · intro c v' hv
+    simp only
+    rw [hmem, lookup_some_iff src _ c hv]
+    simp only [reqHas, true_and, hv]
+    constructor
+    · rintro ⟨v, h1, h2⟩
+      exact ⟨v, h1, by rw [hr v] at h2; cases h2; rfl⟩
+    · rintro ⟨v, h1, h2⟩
+      exact ⟨v, h1, by rw [hr v, h2]⟩
 
 /-! ## non-vacuity -/
 
